@@ -272,6 +272,16 @@ def c_oriented(rng):
     else:
         els = gen.elements(kind, rng, p_empty=0.15)
         steps = gen.random_steps(rng, len(els))
+    if rng.random() < 0.3 and kind == 'polygon':
+        # the buffer ends with ring-less polygons (missing / empty) right after a polygon with a hole, so that the last
+        # ring of the whole buffer is a hole
+        withhole = [e for e in els if e and len(e) >= 2]
+        if not withhole:
+            withhole = [gen.polygon(rng) for _ in range(3)]
+            withhole = [e for e in withhole if len(e) >= 2][:1]
+        if withhole:
+            els = els + [rng.choice(withhole)] + [rng.choice([None, []]) for _ in range(rng.randint(1, 2))]
+            steps = []
     if rng.random() < 0.3:
         # very small / large coordinates (a power-of-two factor, exact): orientation is a matter of sign, not size
         els = gen.scaled(els, rng.choice(gen.SCALES))
